@@ -99,7 +99,7 @@ CHECKS.update({
 CHECKS.update({
  "C13": ("enum+xs", "model_checking",
          "bounded-exhaustive enumeration of encoder-produced readout frames and of frame sequences (fatal-lane memory as a state machine over normal/fatal/absent per lane) through the real LinkValidator in stave mode, judged by the documented rules",
-         "Frames from the independent ALPIDE encoder through a real LinkValidator (check all its-stave): inner barrel all 255 lane subsets of size <= 4 (accepted iff one of the fixed groups), chip id / chip count / bunch-counter variants; every chip list of length 1..2 over {lane, lane+1} x {empty frame, header+hit+trailer} x {frame BC, other BC} in one lane; all 256 bunch-counter byte values x {all chip-empty frames, all header+hit+trailer, mixed}; every hit-content sequence of length <= 2 (3 thorough) over a 10-symbol alphabet whose bytes imitate chip headers, trailers, empty frames and APEs, on a valid and on an invalid frame, with the frame split over pages and a no-data TDH in front in rotation (verdict and ALPIDE readout-flag counters must not vary); middle/outer layers 3..6: legal set, one lane missing, one extra, 6 / 8 chips, permuted order, chip or lane bunch counter deviating, with and without custom chip count/order; every sequence of <= 2 (3 thorough) frames in which each of the three lanes of a group is normal / announces a fatal state / is absent, for each inner-barrel lane group 0..2, 3..5, 6..8 (2 106 sequences quick); for layers 3..6 every lane of the legal set announcing a fatal state, followed by frames without it (clean), without it and another lane (count error) and without it again. Per frame the set of codes {E72,E73,E74,E75} reported at the frame's start offset must equal the documented verdict; frame-level messages anywhere else are violations.",
+         "Frames from the independent ALPIDE encoder through a real LinkValidator (check all its-stave): inner barrel all 255 lane subsets of size <= 4 (accepted iff one of the fixed groups), chip id / chip count / bunch-counter variants; every chip list of length 1..2 over {lane, lane+1} x {empty frame, header+hit+trailer} x {frame BC, other BC} in one lane; all 256 bunch-counter byte values x {all chip-empty frames, all header+hit+trailer, mixed}; every hit-content sequence of length <= 2 (3 thorough) over a 10-symbol alphabet whose bytes imitate chip headers, trailers, empty frames and APEs, on a valid and on an invalid frame, with the frame split over pages and a no-data TDH in front in rotation (verdict and ALPIDE readout-flag counters must not vary); middle/outer layers 3..6: legal set, one lane missing, one extra, 6 / 8 chips, permuted order, chip or lane bunch counter deviating, with and without custom chip count/order; every sequence of <= 3 (4 thorough) frames in which each of the three lanes of a group is normal / announces a fatal state / is absent, for each inner-barrel lane group 0..2, 3..5, 6..8; for layers 3..6 every lane of the legal set announcing a fatal state, followed by frames without it (clean), without it and another lane (count error) and without it again. Per frame the set of codes {E72,E73,E74,E75} reported at the frame's start offset must equal the documented verdict; frame-level messages anywhere else are violations.",
          "Abstains on frames in which a lane that announced a fatal state is itself present (the documents do not say how it is counted). Hit values are from a finite adversarial alphabet, not all values.",
          True),
 })
@@ -141,6 +141,29 @@ CHECKS.update({
          True),
 })
 
+
+# strengthening added after the seeded-change waves 4-8 (DESIGN.md section 10.4); appended to the level text
+ADDENDA = {
+ "C01": "Later additions: streams of 160 HBFs whose orbit counter wraps around 2^32; a calibration-word series (CDW user field progressing over pages) and pages that end with a no-data TDH in the grammar; mixed configurations (links of different barrel / format in one stream); the CLI tier rotates trivial filters (a filter that selects everything present) and input from stdin.",
+ "C02": "Later additions: the CLI leg rotates stdin and --filter-link of the faulty link; every fault is also laid on two sites of one stream (the later occurrence must be reported like the first); a fault in which an IHW of a later packet switches off the lane of that packet's first data word.",
+ "C03": "Later additions: recognisable streams of 1 000 (quick) / 10^4 and 10^5 (thorough) packets; RDH version bytes 3, 4, 6, 7, 99, 100.",
+ "C04": "Later additions: damaged packets that the scanner steps over in RDH-only modes and under filters; payload sizes 1..=40 bytes; the thorough word search is capped at 300 000 states per configuration and reports the cap.",
+ "C06": "Later additions: per-link variants with header-only packets and (check all only) with a memory size below the offset to the next packet.",
+ "C07": "Later additions: links whose packets alternate between the two data formats; 16 quoted header fields compared with the decoded RDH; every run's message list is passed through the real StatsCollector (sort by offset / stave must not panic and must keep every message).",
+ "C09": "Later additions: TDT flag bits in the alphabet, packets numbered by their pages counter, the invariant 'a legal word that passes its own rule is not reported' with the key telling first page / start of data apart.",
+ "C10": "Later additions: HBFs of 65 534 / 65 535 data pages (page counter at the edge of its 16 bits).",
+ "C11": "Later additions: data words judged with a history (an earlier packet announced the complementary lane mask; own IHW with a reserved bit; offsets beyond 2^32; the word before has an unrecognised identifier), and identifier 0xF8 after the start of the data is an out-of-range data word.",
+ "C12": "Later additions: the rejected payload is played twice on a link (second rejection resets like the first), positions beyond 2^32, the padding message through the real collector's sort.",
+ "C13": "Later additions: fatal-lane frame sequences to depth 3 (4 thorough) plus a 4-frame family (each lane fatal in every order with repetition, then every fourth frame); custom files with only chip orders / only chip count; a CLI leg with messages shown and muted (923 cases).",
+ "C14": "Later additions: report rows Links observed, FEE IDs seen (wrapped cells, '... N more'), Run Trigger Type, RDH Version, Data Format, System ID (all 20 known ids), Total HBFs, Data size with its parts, Layers/Staves, Filter RDHs; 12 / 80 / 300 distinct FEE ids; custom-check failures in view modes; 1 000 / 70 000 packets; in every case the code list equals the codes of the listed messages (each once) and total_errors the number of listed messages; every sequence of length 2..4 over two fault kinds on successive packets; every other case finds an older, longer statistics file at the destination.",
+ "C15": "Later additions: every second drift run also writes statistics; a second round trip writes again and the two files must be equal; every other job finds an older, longer statistics file at the destination.",
+ "C16": "Later additions: a matching / mismatching earlier statistics file (-i) x 7 display option sets; a trivial filter, stdin or -v 0 change nothing; check all its-stave on a stream with an ALPIDE lane bunch-counter mismatch in the option-pair lattice; two FEE ids on one link id in stave mode (unit after unit and alternating per HBF) with a lane fault on the first / second / both.",
+ "C17": "Later additions: fatal framing errors on the real binary (6 offset-to-next values x first / middle / last packet x 5 modes).",
+ "C18": "Later additions: cuts around the reader's 100-packet batch boundaries of a 306-packet stream, cuts of large payloads, cuts combined with a failing custom-checks file.",
+ "C19": "Later additions: every nibble value in identifier and flag positions, arbitrary header bytes in view rdh, the styled run reading from stdin.",
+ "C20": "Later additions: chip orders that are a prefix / an extension of the true ones; a custom file holding the true values changes nothing else (outer-layer and inner-barrel stave streams, clean and faulty, 3 modes, 4 key subsets).",
+}
+
 NOT_YET = {
 }
 
@@ -167,7 +190,7 @@ def main():
                 "evidence_file": "/verif/evidence/%s.json" % pid,
                 "replay_cmd_template": "./check %s --replay {path}" % pid,
                 "engine": eng,
-                "level_claimed": {"category": cat, "text": text, "design_ref": "DESIGN.md section 5, %s" % pid},
+                "level_claimed": {"category": cat, "text": text + (" " + ADDENDA[pid] if pid in ADDENDA else ""), "design_ref": "DESIGN.md section 5, %s" % pid},
                 "level_note": note,
                 "technique": tech,
             }
